@@ -197,7 +197,7 @@ def run(ctx, report: Report) -> None:
     r2.findings[n0:] = [f for f in r2.findings[n0:] if 'match_attributes' in f.key]
 
     # ---- R3 ----------------------------------------------------------------------------------------------
-    r3 = report.rule('C11-R3', 'HTML-only pseudo-classes never match in non-HTML XML', floor=4)
+    r3 = report.rule('C11-R3', 'HTML-only pseudo-classes never match in non-HTML XML', floor=3)
     _, ms = src.func('css_match.CSSMatch.match_selectors')
     html_var = None
     for st in ms.body:
